@@ -246,6 +246,13 @@ func (ds *Dataset) StoreEntities(entities []*Entity) (Error error) {
 		verifhook.Release(ds.store.database, "dataset.write", ds)
 	}()
 
+	return ds.storeEntitiesLocked(entities, false)
+}
+
+// storeEntitiesLocked stores a batch for a caller that holds ds.WriteLock. holdsCore tells that the caller
+// also holds the write lock of core.Dataset (a transaction that names it), so the item counter update
+// must not take it again
+func (ds *Dataset) storeEntitiesLocked(entities []*Entity, holdsCore bool) (Error error) {
 	// need this to ensure time moves forward in high perf environments.
 	time.Sleep(time.Nanosecond * 1)
 
@@ -277,7 +284,7 @@ func (ds *Dataset) StoreEntities(entities []*Entity) (Error error) {
 	}
 
 	verifhook.Point(ds.store.database, "StoreEntities.afterDataCommit")
-	err = ds.updateDataset(newitems, entities)
+	err = ds.updateDataset(newitems, entities, holdsCore)
 	if err != nil {
 		return err
 	}
@@ -780,7 +787,7 @@ func (ds *Dataset) StoreEntitiesWithTransaction(
 	return newitems, nil
 }
 
-func (ds *Dataset) updateDataset(newItemCount int64, entities []*Entity) error {
+func (ds *Dataset) updateDataset(newItemCount int64, entities []*Entity, holdsCore bool) error {
 	if ds.ID == "core.Dataset" {
 		for _, dsEntity := range entities {
 			dsInfo, err := ds.store.NamespaceManager.GetDatasetNamespaceInfo()
@@ -845,7 +852,9 @@ func (ds *Dataset) updateDataset(newItemCount int64, entities []*Entity) error {
 			dsEntity.Properties[dsInfo.ItemsKey] = count
 			verifhook.Point(ds.store.database, "updateDataset.beforeStore")
 			tds, ok := ds.store.datasets.Load("core.Dataset")
-			if ok {
+			if ok && holdsCore {
+				_ = tds.(*Dataset).storeEntitiesLocked([]*Entity{dsEntity}, true)
+			} else if ok {
 				_ = tds.(*Dataset).StoreEntities([]*Entity{dsEntity})
 			}
 		}
